@@ -1,4 +1,6 @@
 import PQ.Lemmas.IterLemmas
+import PQ.Lemmas.SortedWF
+import PQ.Props.C10
 /-!
 # C13 — `iter`, `into_iter`, `drain`
 
@@ -125,6 +127,77 @@ theorem C13_exact_implies_adaptor_len_ok_pq (n : Nat) (calls : List ICall) (j : 
 
 example : (Cursor.run (Cursor.new 3) [.next, .sizeHint])[1]? = some (.hint 2 (some 2)) := by decide
 
+/-! ## The sorted iterators on ANY well-formed queue
+
+C06 proves the contracts of `into_sorted_iter` / `into_sorted_vec` together with the *order* of what they yield, from the heap
+invariant.  The iterator contracts themselves (each stored element exactly once, `None` forever afterwards, `len` /
+`size_hint` exact at every step, the two ends never meet) do not depend on the order: they hold on every **well-formed** store
+— in particular on a queue whose `iter_mut` guard was leaked and on a queue that survived a caught panic of `Ord::cmp` at an
+arbitrary comparison of an arbitrary operation (C10), where nothing is known about the order. -/
+section SortedAnyWF
+variable {P : Type} [LT P] [DecidableLT P] [LE P] [Std.IsLinearPreorder P] [Std.LawfulOrderLT P]
+
+/-- **`PriorityQueue::into_sorted_iter` / `into_sorted_vec` on any well-formed queue**: `l` (what `into_sorted_vec` returns)
+is a permutation of the stored entries (each exactly once, `len` many, pairwise distinct items); ANY number `n` of `next`
+calls never faults, answers the first `min n len` entries of `l` and then `None` forever, and the iterator then holds a
+well-formed queue of exactly `len - n` elements (what `len` / `size_hint` report) that will yield the rest of `l` -/
+theorem C13_sorted_pq_any_wf {s : Store P} (h : s.WF) :
+    ∃ l, MaxQ.intoSortedVec s = .ok l ∧ l.Perm s.map.toList ∧ l.length = s.size ∧ (∀ e, e ∈ l ↔ s.Mem e) ∧
+      (l.map (·.1.key)).Nodup ∧
+      ∀ n, ∃ s', bp_popCalls n s = .ok ((l.take n).map some ++ List.replicate (n - l.length) none, s') ∧
+        s'.WF ∧ s'.size = s.size - n ∧ MaxQ.intoSortedVec s' = .ok (l.drop n) := by
+  obtain ⟨l, h1, h2, h3, h4, h5⟩ := swf_pq_sorted_vec h
+  obtain ⟨l', h1', h6⟩ := swf_pq_sorted_iter h
+  rw [h1] at h1'; cases h1'
+  exact ⟨l, h1, h2, h3, h4, h5, h6⟩
+
+/-- **`DoublePriorityQueue::into_sorted_iter` on any well-formed queue**, for EVERY interleaving `calls` of `next` (`false`)
+and `next_back` (`true`), calls after exhaustion included: never a fault; the entries handed out have pairwise distinct items
+(the two ends never return the same element); handed-out entries plus what is still held are a permutation of what was
+stored; before call `j` exactly `len - (entries handed out so far)` elements are held (what `len` / `size_hint` report), call
+`j` answers a held entry if that number is positive and `None` — as does every later call — if it is zero -/
+theorem C13_sorted_dpq_any_wf {s : Store P} (h : s.WF) (calls : List Bool) :
+    ∃ outs s', DQ.sortedCalls calls s = .ok (outs, s') ∧ s'.WF ∧ outs.length = calls.length ∧
+      ((outs.filterMap id).map (·.1.key)).Nodup ∧
+      (∀ e, some e ∈ outs → s.Mem e ∧ ¬ s'.Mem e) ∧
+      ((outs.filterMap id) ++ s'.map.toList).Perm s.map.toList ∧
+      s'.size = s.size - (outs.filterMap id).length ∧ (outs.filterMap id).length = min s.size calls.length ∧
+      (∀ j, j < calls.length →
+        ∃ sj, DQ.sortedCalls (calls.take j) s = .ok (outs.take j, sj) ∧ sj.WF ∧
+          sj.size = s.size - ((outs.take j).filterMap id).length ∧
+          (sj.size = 0 → ∀ j', j ≤ j' → j' < calls.length → outs[j']? = some none) ∧
+          (0 < sj.size → ∃ e, outs[j]? = some (some e) ∧ sj.Mem e)) := by
+  obtain ⟨outs, s', h1, h2, h3, h4, h5, h6, _, h8, h9, h10⟩ := swf_dpq_deque h calls
+  exact ⟨outs, s', h1, h2, h3, h4, h5, h6, h8, h9, h10⟩
+
+/-- the sorted vectors of a `DoublePriorityQueue` on any well-formed queue: permutations of the stored entries -/
+theorem C13_sorted_vecs_dpq_any_wf {s : Store P} (h : s.WF) :
+    (∃ l, DQ.intoAscendingSortedVec s = .ok l ∧ l.Perm s.map.toList ∧ l.length = s.size) ∧
+    (∃ l, DQ.intoDescendingSortedVec s = .ok l ∧ l.Perm s.map.toList ∧ l.length = s.size) := by
+  obtain ⟨l, h1, h2, h3, _⟩ := swf_dpq_ascending h
+  obtain ⟨l', h1', h2', h3', _⟩ := swf_dpq_descending h
+  exact ⟨⟨l, h1, h2, h3⟩, ⟨l', h1', h2', h3'⟩⟩
+
+/-- **… in particular after any history with caught panics.**  From `new()` of either kind, after ANY sequence of legal
+operations each of which may panic at an arbitrary comparison (`runF`, the queue that survives each crash goes on being
+used), the queue the caller holds satisfies the sorted-iterator contracts above. -/
+theorem C13_sorted_after_any_crash_history (k : Kind) (prog : List (Nat × Op P)) (hl : ∀ x ∈ prog, x.2.Legal) :
+    ∃ q n, Crash.runF (Q.new k : Q P) prog = .ok (q, n) ∧
+      (∃ l, MaxQ.intoSortedVec q.s = .ok l ∧ l.Perm q.s.map.toList ∧ l.length = q.s.size) ∧
+      ∀ calls, ∃ outs s', DQ.sortedCalls calls q.s = .ok (outs, s') ∧
+        ((outs.filterMap id).map (·.1.key)).Nodup ∧ ((outs.filterMap id) ++ s'.map.toList).Perm q.s.map.toList ∧
+        (outs.filterMap id).length = min q.s.size calls.length := by
+  obtain ⟨q, n, h1, h2⟩ := C10_repeated_crashes_new k prog hl
+  refine ⟨q, n, h1, ?_, fun calls => ?_⟩
+  · obtain ⟨l, a, b, c, _⟩ := C13_sorted_pq_any_wf h2
+    exact ⟨l, a, b, c⟩
+  · obtain ⟨outs, s', a, _, _, d, _, f, _, g, _⟩ := C13_sorted_dpq_any_wf h2 calls
+    exact ⟨outs, s', a, d, f, g⟩
+
+example : swf_exU.WF ∧ ¬ MaxQ.Inv swf_exU := ⟨swf_exU_wf, swf_exU_not_maxHeap⟩
+
+end SortedAnyWF
+
 end PQ
 
 #print axioms PQ.C13_cursor_nodup
@@ -134,3 +207,7 @@ end PQ
 #print axioms PQ.C13_exact_implies_adaptor_len_ok
 #print axioms PQ.C13_exact_implies_adaptor_len_ok_dpq
 #print axioms PQ.C13_exact_implies_adaptor_len_ok_pq
+#print axioms PQ.C13_sorted_pq_any_wf
+#print axioms PQ.C13_sorted_dpq_any_wf
+#print axioms PQ.C13_sorted_vecs_dpq_any_wf
+#print axioms PQ.C13_sorted_after_any_crash_history
